@@ -211,6 +211,16 @@ GROUPS = {
                    "container terminators and list definitions are outside)"),
         "stubs": ["alloc::fmt::format", "serde_json::Map::insert", "serde_json::Map::get"],
     },
+    "json_dict": {
+        "pkg": "bladeink", "inject": "runtime/src/json/json_write.rs", "modpath": "json::json_write", "files": ["json_dict.rs"],
+        "requires": ["pub(crate) fn write_int_dictionary(map: &HashMap<String, i32>) -> serde_json::Value"],
+        "model_map": True, "panic_property": "C02",
+        "functions": ["json_write::write_int_dictionary", "json_write::write_ink_list"], "stubs": ["serde_json::Map::insert"],
+        "bounds": "dictionaries of one and two entries with symbolic i32 values (all values, including 0 and -1); key strings concrete",
+        "roles": {"int_dict_two_entries": "visitCounts/turnIndices writer on {a: x, b: y}, all i32 x, y",
+                  "int_dict_one_entry": "visitCounts/turnIndices writer on {k: x}, all i32 x",
+                  "ink_list_write_two_items": "list value writer on (A.x = x, B.x = y), all i32 x, y"},
+    },
 }
 
 
@@ -219,6 +229,8 @@ def describe(gname, h):
         m = re.match(r"ns_(.+)_([bifv]{1,2})$", h)
         if m:
             return f"NativeFunctionCall::call op={m.group(1)} operands=({', '.join(TY[c] for c in m.group(2))}) values symbolic"
+        if h.startswith("nss_"):
+            return "NativeFunctionCall::call on string operands of concrete length, symbolic printable-ASCII contents: " + h[4:]
         m = re.match(r"nsv_(.+)_(\w+)$", h)
         if m:
             return (f"NativeFunctionCall::call op={m.group(1)} value oracle on narrow operands ({m.group(2)}: ints = sign-extended "
@@ -321,7 +333,7 @@ PROPS = {
         "assumptions": ["texts are ASCII (the function works on bytes; from_utf8_unchecked is sound for ASCII)"],
     },
     "C02": {
-        "groups": {"json_value": sel_prefix("rt_int", "rt_bool"), "count_flags": sel_all, "choice_flags": sel_all, "pushpop": sel_all, "vars_equal": sel_all},
+        "groups": {"json_value": sel_prefix("rt_int", "rt_bool"), "count_flags": sel_all, "choice_flags": sel_all, "pushpop": sel_all, "vars_equal": sel_all, "json_dict": sel_all},
         "outside": ("flows, threads, call-stack pointers, choices, the variables map, lists, eval-stack order (serde_json::Map / "
                     "Story construction not encodable); the text serialisation of serde_json::Value (to_string / from_str) is trusted"),
         "assumptions": ["serde_json::Value::to_string followed by from_str is the identity on numbers and bools (library contract)"],
